@@ -27,7 +27,8 @@ Proof. solve_decision. Defined.
 Definition engine_eqb (a b : engine) : bool := bool_decide (a = b).
 
 (* Results of library calls: the documented exception classes. *)
-Inductive err := ColumnError | EngineError | OrderLoss | ValueError | TypeError | KeyError | NotImplemented | RelAlgError.
+Inductive err := ColumnError | EngineError | OrderLoss | ValueError | TypeError | KeyError | NotImplemented | RelAlgError
+  | ModelGap.   (* not an exception of the library: the model does not cover this call path *)
 Inductive result (A : Type) := Ok (a : A) | Err (e : err).
 Arguments Ok {A}. Arguments Err {A}.
 Global Instance err_eq_dec : EqDecision err.
